@@ -525,8 +525,48 @@ match self.rng.below(8) {
         self.rng.pick(&self.users).clone()
     }
 
+    /// A chain of sub-messages far deeper than the generated trees: contract calls contract calls contract ..., 12 to
+    /// 22 levels, every level writing a record before it dispatches; the innermost call fails now and then and some
+    /// level on the way catches it (or none does).
+    fn deep_chain(&mut self, m: &ChainM) -> Option<Top> {
+        let contracts: Vec<String> = m.st.contracts.keys().cloned().collect();
+        if contracts.is_empty() {
+            return None;
+        }
+        // (the scripts travel as nested JSON, five levels of nesting per call: serde_json's limit of 128 caps the depth)
+        let depth = self.rng.range(12, 22);
+        let mut leaf = Script { tag: 0, ..Default::default() };
+        let mut me = self.rng.pick(&contracts).clone();
+        self.tag += 1;
+        leaf.tag = self.tag;
+        self.counter += 1;
+        leaf.writes.push((Binary::from(b"deep".to_vec()), Some(Binary::from(format!("leaf:{}", self.counter).into_bytes()))));
+        leaf.fail = self.pct(50);
+        let mut script = leaf;
+        for lvl in 0..depth {
+            let caller = self.rng.pick(&contracts).clone();
+            self.tag += 1;
+            let tag = self.tag;
+            self.nonce += 1;
+            let nonce = self.nonce;
+            self.tag += 2;
+            let mode = *self.rng.pick(&[RMode::Never, RMode::Never, RMode::Success, RMode::Always, RMode::Error]);
+            let plan = ReplyPlan { nonce, on_ok: Script { tag: tag + 1, attrs: vec![("deep-ok".into(), lvl.to_string())], ..Default::default() }, on_err: Script { tag: tag + 2, attrs: vec![("deep-err".into(), lvl.to_string())], ..Default::default() } };
+            let sub = Sub { id: lvl, mode, payload: Payload::Plan(Box::new(plan)), msg: Msg::Exec { addr: me.clone(), script: Box::new(script), funds: vec![] } };
+            self.counter += 1;
+            script = Script { tag, writes: vec![(Binary::from(b"deep".to_vec()), Some(Binary::from(format!("{}:{}", lvl, self.counter).into_bytes())))], msgs: vec![sub], data: if lvl % 5 == 0 { Some(Binary::from(vec![lvl as u8])) } else { None }, ..Default::default() };
+            me = caller;
+        }
+        Some(Top::Exec { sender: self.users[0].clone(), msg: Msg::Exec { addr: me, script: Box::new(script), funds: vec![] }, via: ExecVia::Execute })
+    }
+
     pub fn top(&mut self, m: &ChainM) -> Top {
         self.nodes_left = self.p.max_nodes;
+        if self.rng.below(250) == 0 {
+            if let Some(t) = self.deep_chain(m) {
+                return t;
+            }
+        }
         let depth = self.rng.range(1, self.p.max_depth as u64) as usize;
         let roll = if self.pct(self.p.code_ops_pct) { 99 } else { self.rng.below(97) };
         match roll {
